@@ -376,10 +376,69 @@ pub fn write_replay(case: &Case, v: &Violation, log_hash: u64, verif_seed: u64, 
         "params": case.params,
         "steps": case.steps,
         "explicit": case.explicit,
+        "profile": if std::env::var_os("VERIF_TWIN_CHILD").is_some() { "release" } else { "checked" },
         "expect": { "oracle": v.tag, "at": v.at, "detail": v.detail, "log_hash": format!("{log_hash:016x}") },
     });
     std::fs::write(&path, serde_json::to_string_pretty(&doc).unwrap()).expect("write replay");
     path
+}
+
+
+/// Run the same check once more in the build without debug assertions and overflow checks (child
+/// process of the release-profile binary) and fold its verdicts into this run's `extra` value.
+/// A debug assertion that fires first would otherwise hide what the property's own oracle has to say.
+pub fn release_twin(property: &str, tier: Tier, seed: u64, mut v: Value) -> Value {
+    if std::env::var_os("VERIF_TWIN_CHILD").is_some() {
+        return v;
+    }
+    if !v.is_object() {
+        v = json!({});
+    }
+    let exe = format!("{}/sim/target/release/focasim", verif_root());
+    let out = std::process::Command::new(&exe)
+        .args([property, "--tier", tier.name()])
+        .env("VERIF_TWIN_CHILD", "1")
+        .env("VERIF_EVIDENCE_SUFFIX", ".release-profile")
+        .env("VERIF_SEED", seed.to_string())
+        .output();
+    match out {
+        Ok(o) => {
+            let text = String::from_utf8_lossy(&o.stdout).to_string();
+            let mut lines: Vec<String> = v["lines"].as_array().cloned().unwrap_or_default().iter().filter_map(|x| x.as_str().map(|s| s.to_string())).collect();
+            let mut viol = v["violations"].as_u64().unwrap_or(0);
+            for l in text.lines() {
+                if l.starts_with("VIOLATION ") {
+                    lines.push(l.to_string());
+                    viol += 1;
+                } else if l.trim_start().starts_with("oracle=") {
+                    lines.push(format!("  (release profile) {}", l.trim_start()));
+                }
+            }
+            let suffix = std::env::var("VERIF_EVIDENCE_SUFFIX").unwrap_or_default();
+            let _ = suffix;
+            let ev_path = format!("{}/evidence/{property}.release-profile.json", verif_root());
+            let ev: Value = std::fs::read_to_string(&ev_path).ok().and_then(|s| serde_json::from_str(&s).ok()).unwrap_or(Value::Null);
+            let _ = std::fs::remove_file(&ev_path);
+            v["release_profile_twin"] = json!({
+                "profile": "release (debug-assertions off, overflow-checks off)",
+                "exit": o.status.code(),
+                "evaluations": ev["coverage"]["evaluations"],
+                "distinct_nontrivial": ev["coverage"]["distinct_nontrivial"],
+                "calls": ev["coverage"]["counters"]["calls"],
+                "violations": ev["violations"],
+            });
+            v["lines"] = json!(lines);
+            v["violations"] = json!(viol);
+            if o.status.code() == Some(2) || o.status.code().is_none() {
+                v["harness_error"] = json!(format!("release twin failed: {}", String::from_utf8_lossy(&o.stderr)));
+            }
+        }
+        Err(e) => {
+            v["harness_error"] = json!(format!("cannot run {exe}: {e}"));
+        }
+    }
+    v["profile"] = json!("checked (optimised, debug-assertions on, overflow-checks on)");
+    v
 }
 
 /// Long hex blobs (oversized random datagrams) are abbreviated in evidence samples.
